@@ -293,6 +293,7 @@ class World:
 
     def convert(self, backend: Any, docs: list[dict], via: str, fmt: str, between: dict | None = None) -> dict:
         n0 = len(backend.errors)
+        between_errs: list[int] = []  # positions of the records the in-between (history) conversion left
 
         def call() -> Any:
             if via == "convert":
@@ -306,7 +307,9 @@ class World:
                 for k, r in enumerate(coll.rules):
                     if k == 1 and between is not None:  # history: an unrelated rule, maybe another format
                         other = SigmaRule.from_dict(copy.deepcopy(self.sc["documents"][between["doc"]]))
+                        k0 = len(backend.errors)
                         self.w.capture(lambda: backend.convert_rule(other, between["format"]))
+                        between_errs.extend(range(k0, len(backend.errors)))
                     if isinstance(r, SigmaRule):
                         out.extend(backend.convert_rule(r, fmt))
                     else:
@@ -319,7 +322,9 @@ class World:
                 return backend.convert_rule(rule, fmt)
 
         res = self.w.capture(call)
-        res["errors"] = self.w.errors_record(backend.errors, n0)
+        res["errors"] = self.w.errors_record([e for k, e in enumerate(backend.errors) if k >= n0 and k not in between_errs])
+        if between_errs:
+            res["_all_errors"] = self.w.errors_record(backend.errors, n0)  # in the order they were recorded
         return res
 
 
@@ -489,7 +494,7 @@ def _execute(scenario: dict) -> dict:
                 got = world.convert(b, _probe_docs(scenario, op), op["via"], op["format"], op.get("between"))
                 if op.get("between"):
                     probes["conversion_between_rule_and_its_correlation_rule"] = probes.get("conversion_between_rule_and_its_correlation_rule", 0) + 1
-                own_errors.setdefault(op["backend"], []).extend(got.get("errors", []))
+                own_errors.setdefault(op["backend"], []).extend(got.pop("_all_errors", None) or got.get("errors", []))
                 want = fresh[i]
                 oc = _outcome_class(got)
                 log.append({"op": i, "got": got, "want": want})
@@ -524,6 +529,8 @@ def _execute(scenario: dict) -> dict:
 def _shares(scenario: dict, did: str, touched: set[str]) -> bool:
     if did in touched:
         return True
+    if "detection" not in scenario["documents"][did]:
+        return False
     d = scenario["documents"][did]["detection"]
     conds = d["condition"] if isinstance(d["condition"], list) else [d["condition"]]
     for t in touched:
